@@ -16,8 +16,8 @@ RULE = ("two-stage runs: stage 1 builds the generated system fault-free, stage 2
 ASSUMPTIONS = wa.ASSUMPTIONS
 REAL_VS_STUB = wa.REAL_VS_STUB
 PROBES = wa.PROBES + ["atoms_supplied", "centres_supplied", "supplied_and_generated_in_one_system",
-                      "ignored_molecule_present", "ignored_molecule_not_last", "earlier_call_same_input_path"]
-PROFILE = {"p_pre_call": 0.3, "n_moltypes": (1, 3), "n_entries": (2, 4), "max_molecules": 8, "max_count": 3, "maxres": 7,
+                      "ignored_molecule_present", "ignored_molecule_not_last", "earlier_call_same_input_path", "pdb_input"]
+PROFILE = {"p_pdb": 0.2, "p_pre_call": 0.3, "n_moltypes": (1, 3), "n_entries": (2, 4), "max_molecules": 8, "max_count": 3, "maxres": 7,
            "box_modes": ["cubic", "cubic", "noncubic", "density"], "faults": ["step", "start", "overlap"],
            "maxiter": [0, 1, 2, 800], "dilute_hint": True}
 
@@ -33,8 +33,14 @@ def gen_job(verif_seed, tier, index):
     return job
 
 
+def _nt(j, r):
+    if j.get("coord_ext") == "pdb":
+        r["probes"]["pdb_input"] = 1
+    return bool(j.get("coord_text")) and bool(j.get("expected_built"))
+
+
 def run_job(job):
-    return wa.run_and_tag(job, lambda j, r: bool(j.get("coord_text")) and bool(j.get("expected_built")))
+    return wa.run_and_tag(job, _nt)
 
 
 reductions = jobgen.reductions
